@@ -8,3 +8,6 @@ import TvNetTable.Props.C17
 #print axioms TV.C17.tcp_demux
 #print axioms TV.C17.fabric
 #print axioms TV.C17.noLoopback_addHost
+#print axioms TV.C17.C17_witness_F1
+#print axioms TV.C17.C17_fixed_instance
+#print axioms TV.C17.C17_partial
